@@ -315,6 +315,10 @@ type VerifNode struct {
 
 	snapReq  *VSnapReq
 	snapGate chan struct{}
+	// snapGate2 / snapParked: second ordering point of the snapshot goroutine, after the FSM goroutine has
+	// handed over its state and before the snapshot file is created (only used by SnapRunCapture)
+	snapGate2  chan struct{}
+	snapParked chan struct{}
 	heldSnap *snapTaken
 
 	// replication statuses ever created, to address updates from removed replications
@@ -946,6 +950,65 @@ func (n *VerifNode) VerifSnapGate() {
 	}
 }
 
+// VerifSnapGate2 is called by the snapshot goroutine at the point takeSnapshot.captured.
+func (n *VerifNode) VerifSnapGate2() {
+	g, p := n.snapGate2, n.snapParked
+	if g == nil {
+		return
+	}
+	if p != nil {
+		close(p)
+	}
+	<-g
+}
+
+// SnapRunCapture lets the snapshot goroutine run until it holds the FSM's state (index, term, state,
+// configuration) and parks it there: whatever the state loop does next happens between the capture and
+// the writing of the snapshot file. SnapRunFinish completes the snapshot.
+func (n *VerifNode) SnapRunCapture() bool {
+	ok := false
+	n.run(func() {
+		r := n.R
+		if r.snapTakenCh == nil || n.heldSnap != nil || n.snapReq == nil || n.snapGate2 != nil {
+			return
+		}
+		n.snapGate2, n.snapParked = make(chan struct{}), make(chan struct{})
+		close(n.snapGate)
+		select {
+		case <-n.snapParked:
+			ok = true
+		case t := <-r.snapTakenCh:
+			// the FSM refused (nothing new to snapshot …): the goroutine is done already
+			n.heldSnap = &t
+			n.snapReq = nil
+			close(n.snapGate2)
+			n.snapGate2, n.snapParked = nil, nil
+		case <-n.fsmDead:
+			n.setPanic("fsm")
+		}
+	})
+	return ok
+}
+
+// SnapRunFinish releases a snapshot goroutine parked by SnapRunCapture and holds its result.
+func (n *VerifNode) SnapRunFinish() {
+	n.run(func() {
+		r := n.R
+		if n.snapGate2 == nil {
+			return
+		}
+		close(n.snapGate2)
+		n.snapGate2, n.snapParked = nil, nil
+		select {
+		case t := <-r.snapTakenCh:
+			n.heldSnap = &t
+		case <-n.fsmDead:
+			n.setPanic("fsm")
+		}
+		n.snapReq = nil
+	})
+}
+
 // SnapRun lets the snapshot goroutine run to completion and holds its result.
 func (n *VerifNode) SnapRun() {
 	n.run(func() {
@@ -1159,6 +1222,10 @@ func (n *VerifNode) Shutdown() {
 				close(n.snapGate)
 			}
 		}
+		if n.snapGate2 != nil {
+			close(n.snapGate2)
+			n.snapGate2, n.snapParked = nil, nil
+		}
 		n.snapReq = nil
 		n.releaseRole(n.cur)
 		r.release()
@@ -1179,6 +1246,10 @@ func (n *VerifNode) Close() {
 	}
 	// let a parked snapshot goroutine finish before the fsm channel is closed
 	// (with a dead fsm goroutine it stays parked for good and the channel stays open)
+	if n.snapGate2 != nil {
+		close(n.snapGate2)
+		n.snapGate2, n.snapParked = nil, nil
+	}
 	if fsmAlive && r.snapTakenCh != nil && n.heldSnap == nil && n.snapGate != nil {
 		select {
 		case <-n.snapGate:
